@@ -37,6 +37,8 @@ c20_str(Codes, S) :- atom_codes(A, Codes), atom_chars(A, S).
 c20_list([], T, T).
 c20_list([C|Cs], T, [H|R]) :- char_code(H, C), c20_list(Cs, T, R).
 c20_hd([H|T], H, T).
+c20_walk_arg(S, Hs, T) :- ( var(S) -> Hs = [], T = S ; S = [_|_] -> arg(1, S, H), arg(2, S, S1), Hs = [H|Hs1], c20_walk_arg(S1, Hs1, T) ; Hs = [], T = S ).
+c20_walk_univ(S, Hs, T) :- ( var(S) -> Hs = [], T = S ; S = [_|_] -> S =.. [_, H, S1], Hs = [H|Hs1], c20_walk_univ(S1, Hs1, T) ; Hs = [], T = S ).
 c20_idx([], nil).
 c20_idx([H|_], cons(H)).
 c20_idx(foo, atom).
@@ -140,6 +142,8 @@ def op_goal(op, cs):
         "nth1_last": "( nth1(%d, S, E0) -> R = yes(E0) ; R = no )" % n,
         "nth0_first": "( nth0(0, S, E0) -> R = yes(E0) ; R = no )",
         "nth0_out": "( nth0(%d, S, _) -> R = yes ; R = no )" % n,
+        "walk_arg": "c20_walk_arg(S, H0, T0), R = w(H0, T0)",
+        "walk_univ": "c20_walk_univ(S, H0, T0), R = w(H0, T0)",
         "head": "( c20_hd(S, H0, T0) -> R = yes(H0, T0) ; R = no )",
         "index": "findall(K0, c20_idx(S, K0), R)",
         "app_splits": "findall(X0-Y0, append(X0, Y0, S), R)",
